@@ -12,8 +12,9 @@ EXPLANATION = (
     "collect_*, tenant_count, remove_tenant, create_tenant) are called only from the admin handlers and the listed "
     "metrics / health endpoints. Type level: TenantManager.tenants and .api_key_index are private fields, so no code "
     "outside tenant.rs can index tenants by anything but these methods."
+    " Key normal-form agreement: every keyed operation on TenantManager.api_key_index (insert, duplicate test, lookup, removal) uses the key in the same form (the same string normalisers, or none)."
 )
-DECIDED = ["the tenant every pipeline operation acts on is the one owning the presented key", "cross-tenant accessors are unreachable from tenant-scoped handlers", "the tenant maps are private to tenant.rs"]
+DECIDED = ["the tenant every pipeline operation acts on is the one owning the presented key", "cross-tenant accessors are unreachable from tenant-scoped handlers", "the tenant maps are private to tenant.rs", "api keys are stored, tested and looked up under one normal form"]
 NOT_DECIDED = ["pipeline ids are unique per tenant map (guaranteed by the per-tenant HashMap)", "output channel isolation inside the engine"]
 
 TM = "varpulis_runtime::tenant::TenantManager"
